@@ -15,6 +15,10 @@ EXHAUSTIVE = {"quick": "every dataset (3 elements, <=2 rankings) x 5 schemes x e
 ASSUMPTIONS = ["pivot control through the documented extension point _get_pivot of KwikSortAbs",
                "dyadic penalties: the vectorised float costs of the library are exact"]
 SCHEMES = [ac.P_UNI5, ac.P_IND1, ac.P_PSE5, ac.P_UNI1, ac.P_EXT]
+# differences of 1 on penalties of 2^24: lost by single-precision arithmetic
+PRECISE = [([0, 16777217, 16777216, 0, 16777217, 16777216], [16777216, 16777216, 0, 16777216, 16777216, 0], 1),
+           ([0, 16777216, 16777217, 0, 0, 0], [16777217, 16777217, 0, 0, 0, 0], 1),
+           ([0, 16777216, 8388609, 0, 16777216, 0], [8388608, 8388608, 0, 8388608, 8388608, 0], 1)]
 
 
 def _cases(dss, schemes, all_schemes, max_runs=200):
@@ -75,6 +79,10 @@ def stages(tier, rng, only=None, prop=None):
                      lambda: _mut_cases(grids.datasets(3, 2)[::2] + [ac.random_dataset(rng, 5, 4, nmin=3)
                                                                      for _ in range(150 if tier == "quick" else 1500)],
                                         SCHEMES), _nt, kwikrun.init, post=kwikrun.flatten, aux=aux))
+    out.append(Stage("precise_penalties", "Trace_Kwik", kwikrun.run_all_schedules,
+                     lambda: _cases(grids.datasets(3, 2)[::3] + [ac.random_dataset(rng, 4, 4, nmin=3)
+                                                                  for _ in range(100 if tier == "quick" else 1000)],
+                                    PRECISE, False, 60), _nt, kwikrun.init, post=kwikrun.flatten, aux=aux))
     if tier == "quick":
         out.append(Stage("grid4x2sample", "Trace_Kwik", kwikrun.run_all_schedules,
                          lambda: _cases(grids.datasets(4, 2)[::40], SCHEMES, False), _nt, kwikrun.init,
